@@ -45,6 +45,10 @@ static void fill(uint8_t* p, uint32_t n, int content, uint64_t& x, bool nibble_v
     switch (content) {
       case 1: v = 0xFF; break;
       case 2: v = (uint8_t)(1u << (i & 7)); break;
+      case 3: v = ((i >> 4) & 1) ? (uint8_t)(splitmix(x) | 1) : 0; break;          // 16-byte chunks: zero, non-zero, zero, ...
+      case 4: v = ((i >> 4) & 1) ? 0 : (uint8_t)(splitmix(x) | 1); break;          // the other phase
+      case 5: v = (i >= 8 && i < 24) || (splitmix(x) % 4 == 0) ? 0 : (uint8_t)splitmix(x); break;  // sparse, zero run across a chunk border
+      case 6: v = (i % 24 < 17) ? 0 : (uint8_t)(splitmix(x) | 1); break;           // zero runs of 17 bytes at drifting offsets
       default: v = (uint8_t)splitmix(x);
     }
     p[i] = nibble_vals ? (v & 15) : v;
@@ -159,9 +163,11 @@ static void run_group(int k, uint32_t s, uint32_t a, bool bigpass, bool thorough
   for_group(k, s, a, bigpass, thorough, [&](Tuple t) {
     if (failed) return;
     idx++;
-    for (int content = 0; content < 3 && !failed; content++) {
+    for (int content = 0; content < 7 && !failed; content++) {
       if (!thorough && content == 2) continue;
       if (!thorough && content == 1 && t.kern >= K_RS8_ADDMUL && t.c >= 4) continue;
+      // sparse contents (zero runs / zero chunks): a kernel may special-case zero input
+      if (content >= 3 && (t.size < 24 || (!thorough && t.kern >= K_RS8_ADDMUL && t.c >= 3 && t.c != 0x80 && (t.c & 15) != 15) || (t.a_other > 0 && !thorough))) continue;
       t.content = content;
       t.cseed = mix2(mix2(seed, ((uint64_t)k << 40) | ((uint64_t)s << 8) | a), idx * 4 + content);
       if (count_stats) {
@@ -181,7 +187,7 @@ static void run_group(int k, uint32_t s, uint32_t a, bool bigpass, bool thorough
 
 static void run_c13(bool thorough, int worker, int nworkers, uint64_t seed) {
   uint32_t maxsize = thorough ? 80 : 40;
-  st.rule = "complete grid: every size 0.." + std::to_string(maxsize) + " x every alignment 0..7 of the single operand x (operand count 0..20 for the multiple-symbol kernels | every field constant for the multiply-accumulate kernels" + std::string(thorough ? " x every alignment of the other operand" : "; alignment of the other operand complete for XOR and for 6 constants, seeded otherwise") + "), each in an exact-size heap block (ASan redzone right after the last byte) and in a padded block whose guards must stay intact; contents seeded-random, all-ones" + std::string(thorough ? " and single-bit" : "") + "; plus sampled sizes 255, 256, 257, 1024, 1500, 65535; non-trivial = size not a multiple of the unroll width (8 for XOR, 16 for GF), or count != 1, or unaligned operand, or constant not in {0,1}; distinct = distinct (kernel, size, count, constant, alignments, content) tuple";
+  st.rule = "complete grid: every size 0.." + std::to_string(maxsize) + " x every alignment 0..7 of the single operand x (operand count 0..20 for the multiple-symbol kernels | every field constant for the multiply-accumulate kernels" + std::string(thorough ? " x every alignment of the other operand" : "; alignment of the other operand complete for XOR and for 6 constants, seeded otherwise") + "), each in an exact-size heap block (ASan redzone right after the last byte) and in a padded block whose guards must stay intact; contents seeded-random, all-ones, sparse with zero runs and zero 16-byte chunks" + std::string(thorough ? " and single-bit" : "") + "; plus sampled sizes 255, 256, 257, 1024, 1500, 65535; non-trivial = size not a multiple of the unroll width (8 for XOR, 16 for GF), or count != 1, or unaligned operand, or constant not in {0,1}; distinct = distinct (kernel, size, count, constant, alignments, content) tuple";
   st.exhaustive = true;
   st.subspaces.push_back("(size 0.." + std::to_string(maxsize) + ") x (alignment 0..7 of the single operand) x (count 0..20 | constant 0..255 / 0..15) enumerated completely for 7 kernels; contents sampled");
   uint64_t gidx = 0;
